@@ -3,6 +3,7 @@ package props
 import (
 	"fmt"
 	yaml "gopkg.in/yaml.v2"
+	"math"
 	"reflect"
 	"sort"
 	"strconv"
@@ -522,16 +523,21 @@ func c15Families(tier string) []explore.Family {
 		bkLen = 4
 	}
 	const bkElems = 5
-	fams = append(fams, explore.Family{Name: "sort-by-key-named-like-a-property", Count: seqCount(bkElems, bkLen) * int64(len(bkKeys)), Run: func(i int64, r *explore.Rec) {
+	// the two key values of the keyed elements, small and (for the last key name) huge neighbours: integers beyond 2^53
+	// that a float64 cannot tell apart, in several widths
+	bigPairs := [][2]any{{1, 2}, {1<<53 + 0, 1<<53 + 1}, {int64(math.MaxInt64 - 1), int64(math.MaxInt64)}, {uint64(math.MaxUint64 - 1), uint64(math.MaxUint64)}, {-(1<<53 + 1), -(1 << 53)}, {1.5, 2}}
+	fams = append(fams, explore.Family{Name: "sort-by-key-named-like-a-property", Count: seqCount(bkElems, bkLen) * int64(len(bkKeys)) * int64(len(bigPairs)), Run: func(i int64, r *explore.Rec) {
+		bigKeys := bigPairs[i%int64(len(bigPairs))]
+		i /= int64(len(bigPairs))
 		K := bkKeys[i%int64(len(bkKeys))]
 		idx := seqAt(bkElems, i/int64(len(bkKeys)))
 		mk := func(j, pos int) map[string]any {
 			id := fmt.Sprintf("%d.%d", j, pos) // element kind . position in the input
 			switch j {
 			case 0:
-				return map[string]any{K: 2, "id": id}
+				return map[string]any{K: bigKeys[1], "id": id}
 			case 1:
-				return map[string]any{K: 1, "id": id, "z": 0}
+				return map[string]any{K: bigKeys[0], "id": id, "z": 0}
 			case 2:
 				return map[string]any{"id": id, "p": 1, "q": 2, "r": 3, "s": 4} // lacks the key, has five entries
 			case 3:
@@ -549,7 +555,7 @@ func c15Families(tier string) []explore.Family {
 		r.Trace()
 		o := c15Render(src, map[string]any{"a": arr})
 		desc := func() any {
-			return map[string]any{"template": src, "elements(kind.position)": fmt.Sprint(idx), "key": K}
+			return map[string]any{"template": src, "elements(kind.position)": fmt.Sprint(idx), "key": K, "key_values_of_kinds_1_and_0": fmt.Sprint(bigKeys)}
 		}
 		if o.Panic != nil || o.Err != nil {
 			r.Violation("fails:sort-by-builtin-named-key", desc(), "output", o.String())
